@@ -1018,7 +1018,7 @@ Lemma copy_entity_spec : forall s e, St s -> room s ->
       length (pe (w_pool s')) <= S (length (pe (w_pool s)))
   | Err _ s' => rejected s s'
   end.
-Admitted.
+   (refuted as stated, see above)
 *)
 
 (** Stale handles are rejected before anything happens (C10): a handle that is not alive makes
